@@ -53,6 +53,11 @@ def build_keys(jwk, how, form, n_extra=2):
         else:
             others = [A.okp_jwk(jwk["crv"], 11), A.okp_jwk(jwk["crv"], 12)]
     members = [priv] + [A.jkey(o, "dict") for o in others]
+    if form == "mixed-set":
+        # a set that holds keys of every type: exactly one of them suits the algorithm
+        for other_kty, o in (("oct", A.oct_jwk(32, "hash", 13)), ("RSA", A.rsa_jwk("rsa_1536_a")), ("EC", A.ec_full("P-384", 13)), ("OKP", A.okp_jwk("Ed448", 13))):
+            if other_kty != kty:
+                members.append(A.jkey(o, "dict"))
     ks = KeySet(members)
     if kty == "oct":
         pub_ks = ks
@@ -101,17 +106,28 @@ def run_case(ctx, alg, kind, path, how, form, verify_with, placement, extras, pn
     prot, hdr = header_layout(path, alg, placement, extras)
     given_prot, given_hdr = copy.deepcopy(prot), copy.deepcopy(hdr)
     p_path = "7797-attached" if path == "7797-compact" else path
-    r = scen.jws_produce(p_path, prot, hdr, payload, sign_arg, [alg])
+    if form == "mixed-set":
+        # the library picks at random among the keys it takes for suitable; here the pick is the last candidate (the members of other types come last)
+        from .c14 import seam as pick_seam
+        pick_seam.install()
+        pick_seam.chooser = lambda seq: seq[-1]
+        try:
+            r = scen.jws_produce(p_path, prot, hdr, payload, sign_arg, [alg])
+        finally:
+            pick_seam.chooser = None
+            pick_seam.uninstall()
+    else:
+        r = scen.jws_produce(p_path, prot, hdr, payload, sign_arg, [alg])
     if not r.ok:
         return "produce-failed", [viol(f"signing fails: {tag}", f"{ctxs}: {r.exc!r}")]
     token = r.value
     expected = {}
     expected.update(given_prot or {})
     expected.update(given_hdr or {})
-    uses_set = form in ("set1", "set3", "callable-set")
+    uses_set = form in ("set1", "set3", "callable-set", "mixed-set")
     # which kid must have been recorded
     if uses_set:
-        kid_expected = rjwk.thumbprint(rjwk.public_of(jwk)) if form == "set1" else None
+        kid_expected = rjwk.thumbprint(rjwk.public_of(jwk)) if form in ("set1", "mixed-set") else None
     # ---- joserfc verifies its own output
     detached_payload = None
     if path == "7797-compact":
@@ -133,7 +149,7 @@ def run_case(ctx, alg, kind, path, how, form, verify_with, placement, extras, pn
         if uses_set:
             if kid is None:
                 vs.append(viol(f"kid of the key chosen from the set is missing in the header: {tag}", f"{h}"))
-            elif form == "set1" and kid != kid_expected:
+            elif form in ("set1", "mixed-set") and kid != kid_expected:
                 vs.append(viol(f"kid in header is not the chosen key's: {tag}", f"{kid} vs {kid_expected}"))
         if h != expected:
             vs.append(viol(f"round trip changes the header: {tag}", f"{ctxs}: given {expected} got {h}"))
@@ -230,7 +246,7 @@ def h_roundtrip(ctx):
     path = ctx.choose("path", PATHS)
     kty_oct = kind.startswith("oct")
     how = ctx.choose("key_repr", ["dict", "bytes"] if kty_oct else ["dict", "native", "pem", "der"])
-    form = ctx.choose("key_form", ["key", "set1", "set3", "callable-key", "callable-set"])
+    form = ctx.choose("key_form", ["key", "set1", "set3", "callable-key", "callable-set", "mixed-set"])
     verify_with = ctx.choose("verify_with", ["public"] if kty_oct else ["public", "private"])
     placement = ctx.choose("placement", ["protected"] if path in ("compact", "7797-compact") else ["protected", "unprotected-alg", "split", "empty-protected"])
     extras = ctx.choose("extras", [None, {"typ": "JOSE", "cty": 'a"b\\c/é\u0001'}, LONG_HEADER])
